@@ -17,6 +17,9 @@ import (
 const (
 	peersPath    = "spynode/peers"
 	peersVersion = 2
+
+	// maxPeerAddressSize is the largest peer address accepted when reading stored peers.
+	maxPeerAddressSize = 1024
 )
 
 // Peer address database. Used to find Tx Peers.
@@ -76,7 +79,15 @@ func (repo *PeerRepository) Load(ctx context.Context) error {
 		return errors.Wrap(err, "Failed to read peers count")
 	}
 
-	// Reset
+	if count < 0 {
+		return errors.New("Invalid peers count")
+	}
+
+	// Reset. The capacity is limited by the size of the data, since each peer takes more than a
+	// byte, rather than trusting the count in the data.
+	if int(count) > buffer.Len() {
+		count = int32(buffer.Len())
+	}
 	repo.list = make([]*Peer, 0, count)
 
 	// Parse peers
@@ -238,9 +249,12 @@ func readPeer(input io.Reader, version int32) (Peer, error) {
 		return result, err
 	}
 
+	if addressSize < 0 || addressSize > maxPeerAddressSize {
+		return result, errors.New("Invalid peer address size")
+	}
+
 	addressData := make([]byte, addressSize)
-	_, err := input.Read(addressData) // Read until string terminator
-	if err != nil {
+	if _, err := io.ReadFull(input, addressData); err != nil {
 		return result, err
 	}
 	result.Address = string(addressData)
